@@ -6,10 +6,16 @@ pair-of-doubles complex type through Drivers/C02.lean) and
                                           rigid-body and residual-flexibility partitions, pre_eig)
   * pyyeti.ode.FreqDirect(...).fsolve    (direct solve per frequency)
   * pyyeti.ode.solvepsd                  (unit FRFs scaled by the force PSDs, trapezoidal RMS)
-over coupled/uncoupled x rb/rf layouts (contiguous and interleaved) x all eight incrb subsets x
-rf_disp_only x pre_eig x real/complex coefficients x mass None/vector/matrix, 0 Hz included for
-SolveUnc.  The external kernels (eig, eigh, LU) enter the model as data with a specification whose
-residual is measured here on every case.
+over coupled/uncoupled x rb/rf layouts (contiguous and interleaved, index vectors also unsorted) x all
+eight incrb subsets x rf_disp_only x pre_eig x real/complex coefficients x mass None/vector/matrix x
+dtype (float64 / float32 / integer matrices, complex128 / complex64 forces) x argument shapes (1-D and
+2-D force arrays, scalar / single / repeated frequencies), 0 Hz included for SolveUnc; solvepsd also
+with the uncertainty factors rbduf / elduf.  An *exact* stream compares the constructor bookkeeping
+(nonrf, rb, el, _rb, _el, kdof, the rows behind the reduced m, b, k, imrb, invm) of every constructed
+solver with the model's explicit state (Model/FreqSolve.lean: mkLayout, suInit).  eig and eigh enter the
+model as data with a specification whose residual is measured here on every case; the linear solves are
+the model's own Gaussian elimination (proved correct in Props/C02b.lean), compared numerically with
+LAPACK's result.
 
 The oracle (`search`) never touches the model: residual of (-W^2 M + iW B + K) d - F on the
 dynamic rows, static residual on the rf rows, v = iW d, a = -W^2 d, exact zeros per incrb /
@@ -690,7 +696,7 @@ def correspondence(ctx):
     F0 = np.ones((n0, 2), complex)
     extra = []
     for solver in ("su", "fd"):
-        for inc in (0, 1, 2, "x", "dvb", "ddvvaa"):
+        for inc in (0, 1, 2, "x", "dvb", "ddvvaa", "DVA", "Va", "d-v"):
             extra.append(spec_of(base, solver, inc, False, fq, F0))
         extra.append(spec_of(base, solver, "dva", False, fq, np.ones((n0 + 1, 2), complex)))
         extra.append(spec_of(base, solver, "dva", False, fq, np.ones((n0, 3), complex)))
@@ -796,7 +802,8 @@ def correspondence(ctx):
          "mass:none", "mass:vector", "mass:matrix", "stream:psd", "corpus-cases",
          "stream:state", "state:eig-path", "state:real-uncoupled", "state:rf-below-rb", "state:rb-unsorted-user",
          "state:rf-unsorted-user", "stream:shapes", "force:1d", "freq:scalar", "freq:repeated",
-         "variant:f32", "variant:int", "variant:c64F", "psd:uf", "stream:gauss-spec"]
+         "variant:f32", "variant:int", "variant:c64F", "psd:uf", "stream:gauss-spec", "gauss:singular-refused",
+         "gauss:pivoted"]
         + ["incrb:" + "".join(sorted(s)) for s in INCRB_SUBSETS]
     )
 
@@ -1047,6 +1054,21 @@ def _gauss_stream(ctx, rs, drv, worst):
             continue
         lines.append("gauss %d %s %s" % (n, _bits_c(A), _bits_c(b)))
         data.append((A, b))
+    # exactly singular systems (and one that needs a row interchange first): the proved elimination refuses exactly
+    # where la.solve raises LinAlgError
+    for A, b in (([[1.0, 2.0], [2.0, 4.0]], [1.0, 1.0]), ([[0.0, 0.0], [0.0, 3.0]], [1.0, 2.0]),
+                 ([[0.0, 2.0, 1.0], [3.0, 1.0, 1.0], [3.0, 3.0, 2.0]], [1.0, 2.0, 3.0]),
+                 ([[0.0, 2.0], [3.0, 1.0]], [2.0, 5.0])):
+        A, b = np.array(A, complex), np.array(b, complex)
+        rep = drv.ask(["gauss %d %s %s" % (len(b), _bits_c(A), _bits_c(b))])[0]
+        try:
+            want = "ok"
+            la.solve(A, b)
+        except la.LinAlgError:
+            want = "error singular"
+        ctx.case(("gauss-fixed", rep), nontrivial=False, branch="gauss:" + ("singular-refused" if want != "ok" else "pivoted"))
+        if not rep.startswith(want):
+            ctx.disagree("gauss", {"A": _enc(A), "b": _enc(b)}, want, rep[:40])
     for (A, b), rep in zip(data, drv.ask(lines)):
         v = _unbits(rep.split()[1:])
         x = v[0::2] + 1j * v[1::2]
